@@ -259,7 +259,7 @@ def run(ctx):
 
 
 MANIFEST_ENTRY = {
-    "technique": "static analysis: MIR sink classification of every append to the script buffer (constant / identifier / escaped; helpers attributed to their caller) in the ssr and hydrate configurations, the escaper checked against the JS-string-in-<script> grammar by finite character-class analysis (rules/dtable.py), separator idiom check, MIR path trace of the registration and who-may-call of the registration API",
+    "technique": "static analysis: MIR taint of every string reaching the embedded script (constant, identifier or escaped) in the ssr and hydrate configurations, escaper decision table against the JS-in-<script> grammar, MIR path summary of RegisterCtx::register (unit's own locale, id and strings, only with a context), single-writer check of the registry (only register takes mutable access to the guarded map; serialising it leaves it intact), who-may-register call-graph check, generated get_translations template",
     "level_text": "Structural: every byte sequence that can reach the embedded <script> is classified at its append site for all inputs; the escaper's table is compared with what a JS string inside a script element requires; registration is shown reachable only from the generated accessor of a unit. The script is never built or parsed.",
     "level_note": "Trusted: identifiers need no escaping; browser/JS semantics. Not decided: leptos inner_html handling, client decoding.",
 }
